@@ -4,6 +4,7 @@ package c15
 
 import (
 	"fmt"
+	"math"
 	"reflect"
 
 	"github.com/ctessum/geom"
@@ -27,7 +28,7 @@ func init() {
 		Run: run,
 		Floors: func(t string) map[string]int64 {
 			m := map[string]int64{"pos.perturbed": 5000, "pos.permuted": 2000, "pos.ring_rotated": 1000, "neg.type": 5000, "neg.member_inserted": 1000, "neg.member_deleted": 1000, "neg.vertex_inserted": 1000,
-				"neg.vertex_deleted": 1000, "neg.reversed": 300, "neg.displaced": 2000, "unrelated": 1000, "base.many_members_60_to_140": 100, "base.with_duplicate_member": 300, "neg.ring_moved_to_sibling_polygon": 300}
+				"neg.vertex_deleted": 1000, "neg.reversed": 300, "neg.displaced": 2000, "unrelated": 1000, "base.many_members_60_to_140": 100, "base.with_duplicate_member": 300, "neg.ring_moved_to_sibling_polygon": 300, "base.coordinate_spacing_comparable_to_tol": 300}
 			for _, n := range typeNames {
 				m["base."+n] = 100
 			}
@@ -43,6 +44,28 @@ type builder struct {
 	tol  float64
 	cell int // next free cell
 	many bool // top-level multi-geometries get 60..140 members (sizes on both sides of 64 and 128)
+	off  float64 // added to every coordinate: 1e15 .. 9e15 tol puts the float64 spacing at 0.1 .. 1 tol
+}
+
+// shift returns v+d as realised in float64 with the meaning of d kept: a perturbation
+// (|d| < tol) stays strictly below tol, a displacement (|d| > tol) stays strictly above it.
+// (Differences of nearby doubles are exact, so the realised shift is nv-v.)
+func shift(v, d, tol float64) float64 {
+	nv := v + d
+	if math.Abs(d) < tol {
+		for math.Abs(nv-v) >= tol {
+			nv = math.Nextafter(nv, v)
+		}
+		return nv
+	}
+	dir := math.Inf(1)
+	if d < 0 {
+		dir = math.Inf(-1)
+	}
+	for math.Abs(nv-v) <= tol {
+		nv = math.Nextafter(nv, dir)
+	}
+	return nv
 }
 
 // members returns the member count of a top-level multi-geometry.
@@ -58,7 +81,7 @@ func (b *builder) nextCell() (float64, float64) {
 	k := b.cell
 	b.cell++
 	s := 1e4 * b.tol
-	return float64(k%8) * s * 3, float64(k/8) * s * 3
+	return float64(k%8)*s*3 + b.off, float64(k/8)*s*3 + b.off
 }
 
 // pts returns n distinct lattice vertices (200 tol spacing) in a fresh cell.
@@ -214,8 +237,8 @@ func editablePaths(g geom.Geom) []int {
 func (b *builder) perturb(g geom.Geom) geom.Geom {
 	return mapPts(g, func(p []geom.Point, ring bool) []geom.Point {
 		for i := range p {
-			p[i].X += b.r.Range(-0.9, 0.9) * b.tol
-			p[i].Y += b.r.Range(-0.9, 0.9) * b.tol
+			p[i].X = shift(p[i].X, b.r.Range(-0.9, 0.9)*b.tol, b.tol)
+			p[i].Y = shift(p[i].Y, b.r.Range(-0.9, 0.9)*b.tol, b.tol)
 		}
 		if ring && len(p) > 1 {
 			p[len(p)-1] = p[0]
@@ -302,6 +325,11 @@ func (b *builder) negatives(g geom.Geom) []neg {
 	// one vertex displaced by 1.5-100 tol
 	for rep := 0; rep < 4; rep++ {
 		lo, hi := 2.0, 100.0 // a later perturbation of < 0.9 tol leaves > 1.1 tol
+		if b.off != 0 {
+			// coordinate spacing up to 2 tol: the realised displacement is >= 3 tol - spacing/2,
+			// the realised perturbation < tol, so more than tol remains
+			lo = 3.0
+		}
 		if rep == 3 {
 			lo, hi = 1.05, 2.0 // judged without further perturbation
 		}
@@ -313,9 +341,9 @@ func (b *builder) negatives(g geom.Geom) []neg {
 			i := r.Intn(n)
 			d := r.Range(lo, hi) * b.tol * float64(1-2*r.Intn(2))
 			if r.Bool() {
-				p[i].X += d
+				p[i].X = shift(p[i].X, d, b.tol)
 			} else {
-				p[i].Y += d
+				p[i].Y = shift(p[i].Y, d, b.tol)
 			}
 			if ring {
 				p[len(p)-1] = p[0]
@@ -474,6 +502,13 @@ func run(c *core.Ctx, idx int) {
 	tol := []float64{1e-9, 1e-6, 1e-3, 1, 7.5, 1e3}[r.Intn(6)] * r.Range(0.5, 2)
 	b := &builder{r: r, tol: tol}
 	kind := r.Intn(8)
+	if r.Chance(0.1) {
+		// far from the origin relative to the tolerance: the float64 spacing of the coordinates is
+		// 0.1 .. 1 tol (a tolerance of a nanometre at UTM coordinates); perturbations and
+		// displacements are realised exactly (see shift)
+		b.off = tol * math.Pow(10, r.Range(15, 15.95)) * float64(1-2*r.Intn(2))
+		c.Count("base.coordinate_spacing_comparable_to_tol")
+	}
 	if r.Chance(0.05) {
 		b.many = true
 		kind = []int{1, 3, 5, 6}[r.Intn(4)]
